@@ -336,7 +336,332 @@ fn run_reader(c: &[u64]) -> Vec<u64> {
     r.unwrap_or(vec![8, PANIC])
 }
 
+// ---------------------------------------------------------------- kinds 60..62: the QUIC substream type, end to end
+
+mod quic {
+    use super::*;
+    use futures::{SinkExt, StreamExt};
+    use litep2p::{
+        config::ConfigBuilder,
+        crypto::ed25519::Keypair,
+        protocol::{Direction, TransportEvent, TransportService, UserProtocol},
+        substream::Substream,
+        transport::quic::config::Config as QuicConfig,
+        types::protocol::ProtocolName,
+        Litep2p, Litep2pEvent, PeerId,
+    };
+    use std::{
+        sync::{Mutex, OnceLock},
+        time::Duration,
+    };
+    use tokio::sync::mpsc;
+
+    /// the codecs the two nodes have a protocol for
+    pub const CODECS: [(u64, u64); 12] = [
+        (0, 1), (0, 10), (0, 1024), (0, 1025), (0, 2048), (0, 70000), (1, 0), (2, 1), (2, 128), (2, 16384), (2, 70000),
+        (2, 2097152),
+    ];
+
+    struct Proto {
+        name: ProtocolName,
+        codec: ProtocolCodec,
+        cmd: mpsc::UnboundedReceiver<PeerId>,
+        out: mpsc::UnboundedSender<(bool, Substream)>,
+        /// an open request that came before this protocol had heard of the connection
+        pending: Option<PeerId>,
+    }
+
+    #[async_trait::async_trait]
+    impl UserProtocol for Proto {
+        fn protocol(&self) -> ProtocolName {
+            self.name.clone()
+        }
+        fn codec(&self) -> ProtocolCodec {
+            self.codec
+        }
+        async fn run(mut self: Box<Self>, mut service: TransportService) -> litep2p::Result<()> {
+            loop {
+                tokio::select! {
+                    ev = service.next() => match ev {
+                        None => return Ok(()),
+                        Some(TransportEvent::SubstreamOpened { direction, substream, .. }) => {
+                            let _ = self.out.send((matches!(direction, Direction::Inbound), substream));
+                        }
+                        Some(TransportEvent::ConnectionEstablished { peer, .. }) => {
+                            if self.pending == Some(peer) && service.open_substream(peer).is_ok() {
+                                self.pending = None;
+                            }
+                        }
+                        Some(_) => {}
+                    },
+                    c = self.cmd.recv() => match c {
+                        None => return Ok(()),
+                        Some(peer) => {
+                            if service.open_substream(peer).is_err() {
+                                self.pending = Some(peer);
+                            }
+                        }
+                    },
+                }
+            }
+        }
+    }
+
+    pub struct Rig {
+        rt: tokio::runtime::Runtime,
+        peer_b: PeerId,
+        open: Vec<mpsc::UnboundedSender<PeerId>>,
+        subs_a: Vec<mpsc::UnboundedReceiver<(bool, Substream)>>,
+        subs_b: Vec<mpsc::UnboundedReceiver<(bool, Substream)>>,
+        /// a case could not get its pair of substreams: the following ones fail at once instead of waiting
+        broken: bool,
+    }
+
+    fn node(
+        rt: &tokio::runtime::Runtime,
+    ) -> (PeerId, multiaddr::Multiaddr, Vec<mpsc::UnboundedSender<PeerId>>, Vec<mpsc::UnboundedReceiver<(bool, Substream)>>,
+          mpsc::UnboundedSender<multiaddr::Multiaddr>, mpsc::UnboundedReceiver<()>) {
+        let (tx, rx) = std::sync::mpsc::channel();
+        let (dial_tx, mut dial_rx) = mpsc::unbounded_channel::<multiaddr::Multiaddr>();
+        let (up_tx, up_rx) = mpsc::unbounded_channel::<()>();
+        rt.spawn(async move {
+            let mut builder = ConfigBuilder::new()
+                .with_keypair(Keypair::generate())
+                .with_keep_alive_timeout(Duration::from_secs(3600))
+                .with_quic(QuicConfig {
+                    listen_addresses: vec!["/ip4/127.0.0.1/udp/0/quic-v1".parse().unwrap()],
+                    ..Default::default()
+                });
+            let mut open = Vec::new();
+            let mut subs = Vec::new();
+            for (i, (tag, arg)) in CODECS.iter().enumerate() {
+                let (ctx, crx) = mpsc::unbounded_channel();
+                let (stx, srx) = mpsc::unbounded_channel();
+                builder = builder.with_user_protocol(Box::new(Proto {
+                    name: ProtocolName::from(format!("/c04/quic/{i}")),
+                    codec: parse_codec(*tag, *arg).unwrap(),
+                    cmd: crx,
+                    out: stx,
+                    pending: None,
+                }));
+                open.push(ctx);
+                subs.push(srx);
+            }
+            let mut litep2p = Litep2p::new(builder.build()).unwrap();
+            let peer = *litep2p.local_peer_id();
+            let addr = litep2p.listen_addresses().next().unwrap().clone();
+            tx.send((peer, addr, open, subs)).unwrap();
+            loop {
+                tokio::select! {
+                    ev = litep2p.next_event() => match ev {
+                        Some(Litep2pEvent::ConnectionEstablished { .. }) => { let _ = up_tx.send(()); }
+                        Some(_) => {}
+                        None => break,
+                    },
+                    a = dial_rx.recv() => match a {
+                        Some(a) => {
+                            if let Err(e) = litep2p.dial_address(a.clone()).await {
+                                eprintln!("C04 quic: dial {a} failed: {e:?}");
+                            }
+                        }
+                        None => break,
+                    },
+                }
+            }
+        });
+        let (peer, addr, open, subs) = rx.recv().unwrap();
+        (peer, addr, open, subs, dial_tx, up_rx)
+    }
+
+    pub fn rig() -> &'static Mutex<Option<Rig>> {
+        static RIG: OnceLock<Mutex<Option<Rig>>> = OnceLock::new();
+        RIG.get_or_init(|| {
+            let rt = tokio::runtime::Builder::new_multi_thread().worker_threads(2).enable_all().build().unwrap();
+            let (_pa, _aa, open_a, subs_a, dial_a, mut up_a) = node(&rt);
+            let (pb, ab, _open_b, subs_b, _dial_b, _up_b) = node(&rt);
+            let ab = ab.to_string();
+            let target: multiaddr::Multiaddr =
+                if ab.contains("/p2p/") { ab.parse().unwrap() } else { format!("{ab}/p2p/{pb}").parse().unwrap() };
+            let _ = dial_a.send(target);
+            let ok = rt.block_on(async { tokio::time::timeout(Duration::from_secs(20), up_a.recv()).await.is_ok() });
+            // the dial channel must stay open for the node's loop
+            std::mem::forget(dial_a);
+            std::mem::forget(_dial_b);
+            std::mem::forget(_open_b);
+            Mutex::new(if ok { Some(Rig { rt, peer_b: pb, open: open_a, subs_a, subs_b, broken: false }) } else { None })
+        })
+    }
+
+    pub fn run(c: &[u64]) -> Vec<u64> {
+        let mut cur = Cur(c, 0);
+        let parsed = (|| {
+            let t = cur.next()?;
+            let arg = cur.next()?;
+            if !(60..=62).contains(&t) {
+                return None;
+            }
+            let idx = CODECS.iter().position(|x| *x == (t - 60, arg))?;
+            let nops = cur.count()?;
+            let mut ops = Vec::new();
+            for _ in 0..nops {
+                ops.push(match cur.next()? {
+                    t @ (1 | 3) => {
+                        let b = cur.next()?;
+                        let len = cur.next()?;
+                        if b > 255 || len > MAX_LEN {
+                            return None;
+                        }
+                        (t, b as u8, len as usize)
+                    }
+                    2 => (2, 0, 0),
+                    4 => (4, 0, 0),
+                    _ => return None,
+                });
+            }
+            for _ in 0..4 {
+                if cur.next()? != 0 {
+                    return None;
+                }
+            }
+            if cur.1 != c.len() {
+                return None;
+            }
+            Some((idx, ops))
+        })();
+        let Some((idx, ops)) = parsed else { return vec![0] };
+        let mut guard = rig().lock().unwrap();
+        let Some(rig) = guard.as_mut() else { eprintln!("C04 quic: no connection"); return vec![11, PANIC] };
+        if rig.broken {
+            return vec![11, PANIC];
+        }
+        let limit = Duration::from_secs(30);
+        let peer_b = rig.peer_b;
+        let _ = rig.open[idx].send(peer_b);
+        let (rx_a, rx_b) = (&mut rig.subs_a[idx], &mut rig.subs_b[idx]);
+        let t = rig.rt.block_on(async move {
+            let mut out = vec![11u64];
+            let dialer = match tokio::time::timeout(limit, rx_a.recv()).await {
+                Ok(Some((false, s))) => s,
+                other => { eprintln!("C04 quic: no outbound substream: {:?}", other.map(|x| x.map(|y| y.0))); return vec![11, PANIC] }
+            };
+            let listener = match tokio::time::timeout(limit, rx_b.recv()).await {
+                Ok(Some((true, s))) => s,
+                other => { eprintln!("C04 quic: no inbound substream: {:?}", other.map(|x| x.map(|y| y.0))); return vec![11, PANIC] }
+            };
+            let mut dialer = dialer;
+            let reader = tokio::spawn(async move {
+                let mut sub = listener;
+                let mut frames: Vec<Vec<u8>> = Vec::new();
+                loop {
+                    match tokio::time::timeout(limit, sub.next()).await {
+                        Ok(Some(Ok(f))) => frames.push(f.to_vec()),
+                        Ok(None) => return (frames, 1u64),
+                        Ok(Some(Err(SubstreamError::ReadFailure(_)))) => return (frames, 3),
+                        Ok(Some(Err(_))) => return (frames, 4),
+                        Err(_) => return (frames, 7),
+                    }
+                }
+            });
+            for (t, b, len) in ops {
+                let code = match t {
+                    1 => match tokio::time::timeout(limit, dialer.feed(mk_msg(b, len))).await {
+                        Ok(Ok(())) => 1,
+                        Ok(Err(e)) => err_code(&e),
+                        Err(_) => 7,
+                    },
+                    2 => match tokio::time::timeout(limit, SinkExt::<Bytes>::flush(&mut dialer)).await {
+                        Ok(Ok(())) => 1,
+                        Ok(Err(e)) => err_code(&e),
+                        Err(_) => 7,
+                    },
+                    3 => match tokio::time::timeout(limit, dialer.send_framed(mk_msg(b, len))).await {
+                        Ok(Ok(())) => 1,
+                        Ok(Err(e)) => err_code(&e),
+                        Err(_) => 7,
+                    },
+                    _ => match tokio::time::timeout(limit, SinkExt::<Bytes>::close(&mut dialer)).await {
+                        Ok(Ok(())) => 1,
+                        Ok(Err(e)) => err_code(&e),
+                        Err(_) => 7,
+                    },
+                };
+                out.push(code);
+            }
+            let (frames, fin) = reader.await.unwrap_or((Vec::new(), PANIC));
+            out.push(frames.len() as u64);
+            for f in &frames {
+                rle(&mut out, f);
+            }
+            out.push(fin);
+            out
+        });
+        if t == [11, PANIC] {
+            rig.broken = true;
+        }
+        t
+    }
+
+    pub fn gen(rng: &mut Rng, thorough: bool) -> Vec<u64> {
+        let (tag, arg) = rng.pick(&CODECS);
+        let mut c = vec![60 + tag, arg];
+        let mut ops: Vec<u64> = Vec::new();
+        let mut nops = 0;
+        let nmsgs = rng.range(1, if thorough { 8 } else { 5 });
+        let mut unflushed = false;
+        let mut queued = 0u64;
+        let mut force_flush = false;
+        for i in 0..nmsgs {
+            let b = (i * 2 + rng.below(2) * 100 + 3) % 256;
+            let mut len = match tag {
+                0 => arg,
+                1 => rng.pick(&[0u64, 1, 127, 128, 16384, 65536, 262_144, 300_000, 1 << 20, 2_000_000]),
+                _ => rng.pick(&[0u64, 1, arg / 2, arg, arg.min(262_145), arg.min(300_000)]),
+            };
+            if i > 0 && rng.chance(10) {
+                len = match tag {
+                    1 => len,
+                    _ => arg + 1,
+                };
+            }
+            if rng.chance(50) {
+                ops.extend([1, b, len]);
+                unflushed = true;
+                if queued >= 65536 {
+                    force_flush = true;
+                }
+                queued += len + 10;
+                if i == 0 || rng.chance(50) {
+                    ops.push(2);
+                    nops += 1;
+                    unflushed = false;
+                    queued = 0;
+                    force_flush = false;
+                }
+            } else {
+                ops.extend([3, b, len]);
+                unflushed = false;
+                queued = 0;
+                force_flush = false;
+            }
+            nops += 1;
+        }
+        if unflushed && (force_flush || rng.chance(80)) {
+            ops.push(2);
+            nops += 1;
+        }
+        ops.push(4);
+        nops += 1;
+        c.push(nops);
+        c.extend(ops);
+        c.extend([0, 0, 0, 0]);
+        c
+    }
+}
+
 pub fn run(c: &[u64]) -> Vec<u64> {
+    if matches!(c.first().copied().unwrap_or(0), 60..=62) {
+        return quic::run(c);
+    }
     // the handle arms tokio::time::sleep when it sends FIN: a runtime context must exist (nothing is awaited)
     let rt = tokio::runtime::Builder::new_current_thread().enable_time().start_paused(true).build().unwrap();
     let _guard = rt.enter();
@@ -577,7 +902,11 @@ fn gen_reader(rng: &mut Rng, thorough: bool) -> Vec<u64> {
 }
 
 pub fn gen(rng: &mut Rng, thorough: bool) -> Vec<u64> {
-    if rng.chance(60) { gen_writer(rng, thorough) } else { gen_reader(rng, thorough) }
+    match rng.below(20) {
+        0..=10 => gen_writer(rng, thorough),
+        11..=17 => gen_reader(rng, thorough),
+        _ => quic::gen(rng, thorough),
+    }
 }
 
 #[allow(dead_code)]
